@@ -16,6 +16,40 @@ CHECKS = {
         "parenthesised by the harness so text means what the tree means). Two known findings are relaxed only on rows where the offending operand is NULL.",
         "DESIGN.md §C06",
     ),
+    "C07": (
+        "property-based testing (Hypothesis core-grammar statements x dialects x generator-option vectors), metamorphic oracle: option output reparses to the default output's tree modulo the option's dimension",
+        "Generated-input search over statements, dialects and option vectors; each option output is reparsed in its dialect and compared by == and by an independent fingerprint with the default output's tree "
+        "(comments stripped / quoted flags cleared as the property allows), plus sentinel, comments=False and token-value checks through the dialect's own tokenizer. Sampled, not exhaustive.",
+        "Domain is restricted to statements whose default output round-trips in the dialect (C01's subject otherwise); opaque Command fallbacks are out of domain; T-SQL dynamic-SQL rendering is a listed known finding.",
+        "DESIGN.md §C07",
+    ),
+    "C08": (
+        "property-based testing of operation histories (Hypothesis-generated sequences of public tree mutations with cache-filling probes, invariant after every step) + bounded-exhaustive short histories + parser/optimizer outputs incl. the repository's identity fixtures as seed corpus",
+        "Generated histories of up to 25 (thorough 40) public operations; after every step the parent/arg_key/index links, absence of sharing, hash(node)==hash(independently rebuilt node) for every node, and agreement of == with an "
+        "independent structural fingerprint are checked. All histories of length 2 (thorough 3) over two tiny trees and 11 operations are enumerated. Outputs of parse_one in 34 dialects and of each optimizer rule are checked with the same invariants.",
+        "Observes cached hashes only through hash(); operations the API refuses are skipped. Exhaustiveness applies to the short-history sub-space only.",
+        "DESIGN.md §C08",
+    ),
+    "C09": (
+        "property-based testing (Hypothesis statements x generated call sequences of copying APIs) with before/after deep-fingerprint oracle; copy-independence under generated edits",
+        "Each case applies 3-8 generated calls plus sql() into all 34 dialects to one shared argument tree and compares an independent deep fingerprint (class, args, public type, comments, meta), the SQL text and the link invariant before and after every call; "
+        "then checks that a copy shares no node and that generated in-place edits on either side do not leak to the other.",
+        "A call that raises is still required to leave its argument untouched. Sampled over statements, dialects and call orders.",
+        "DESIGN.md §C09",
+    ),
+    "C12": (
+        "property-based testing (Hypothesis statements with comments x dialects x {parsed, annotated, qualified}) with round-trip oracle over dump/load, JSON text, pickle and copy",
+        "For every generated tree variant each serialisation route must return a tree that is ==, has an identical independent deep fingerprint (incl. public type, comments, meta), generates the same SQL in three dialects, satisfies the link invariant and shares no node; json.dumps(dump(t)) must not raise.",
+        "Observes nodes through public attributes only. Sampled over the core grammar; node classes outside it are reached only through dialect-specific parsing of core statements.",
+        "DESIGN.md §C12",
+    ),
+    "C20": (
+        "property-based testing (Hypothesis source trees x generated edit scripts / independent trees x true-correspondence matchings) with an accounting oracle over the edit script",
+        "Every non-Identifier node of source/target must be accounted exactly once (Remove|Keep|Update source side; Insert|Keep|Update target side), paired nodes share a class, no foreign nodes, delta_only == full minus Keep, "
+        "delta empty <=> independent fingerprints equal, inputs untouched (deep fingerprint, text, links). Repetitive trees are over-weighted because ties drive the matching.",
+        "Edited targets that are structurally incomplete (a required arg removed) are outside diff's domain and counted as such; caller matchings are true correspondences (same node before the edit script).",
+        "DESIGN.md §C20",
+    ),
 }
 
 NOT_YET = {}
